@@ -243,6 +243,10 @@ func encodeText(text []rune, submode subMode) (subMode, []int) {
 	}
 	if len(tmp)%2 != 0 {
 		result = append(result, (h*30)+29)
+		if submode == subPunct {
+			// in the punctuation sub-mode the pad value 29 is a latch to alpha
+			submode = subUpper
+		}
 	}
 	return submode, result
 }
